@@ -89,6 +89,8 @@ func genJoin(rt *rapid.T) *JoinSpec {
 	for i := 0; i < n; i++ {
 		j.Items = append(j.Items, vc.genPrintSpec(rt, 1, false))
 	}
+	j.Lines = rapid.IntRange(0, 2).Draw(rt, "lines") == 0
+	j.NoDelim = rapid.IntRange(0, 2).Draw(rt, "nodelim") == 0
 	return j
 }
 
